@@ -10,8 +10,8 @@ CONSTANTS MaxOrd = 1
  InitMode = "empty"
 SPECIFICATION Spec
 VIEW View
-INVARIANT Quiescent
-INVARIANT Census12
+INVARIANT StatusTruth
+INVARIANT QuietPods
 INVARIANT ReconcileSafe
 PROPERTY NoRestartOnScale
 PROPERTY NoCollateralDelete
